@@ -314,7 +314,11 @@ func vfBubbles(t *testing.T, n int, fn func(t *testing.T, i int)) {
 				if i >= n {
 					return
 				}
-				synctest.Test(t, func(t *testing.T) { fn(t, i) })
+				// A sub-test per bubble: a race report or failure attributed to one bubble must
+				// not stop the remaining cases from running.
+				t.Run("b", func(t *testing.T) {
+					synctest.Test(t, func(t *testing.T) { fn(t, i) })
+				})
 			}
 		}()
 	}
